@@ -200,6 +200,8 @@ func boundsObligations(p *load.Program, fn *ssa.Function) []panicOb {
 				} else {
 					ob.Why = fmt.Sprintf("constant index %d but no length bound on %s on every path", k, facts.Term(base))
 				}
+			case lenMinusK(idx, base) > 0 && knownMinLen(base, fs) >= lenMinusK(idx, base):
+				ob.OK, ob.Why = true, "index len-K with length >= K established on every path"
 			default:
 				// idx < len(base) fact
 				for _, f := range fs {
@@ -427,4 +429,22 @@ func indexBelow(idx, L ssa.Value, fs []facts.Fact) bool {
 		}
 	}
 	return false
+}
+
+// lenMinusK: idx is len(base) - K for a positive constant K (the K-th element from the end);
+// returns K, or 0.
+func lenMinusK(idx, base ssa.Value) int64 {
+	b, ok := strip(idx).(*ssa.BinOp)
+	if !ok || b.Op != token.SUB {
+		return 0
+	}
+	k, isK := constInt(b.Y)
+	if !isK || k <= 0 {
+		return 0
+	}
+	l := lenOf(b.X)
+	if l == nil || !(l == base || facts.Term(l) == facts.Term(base)) {
+		return 0
+	}
+	return k
 }
